@@ -277,7 +277,7 @@ def check(ctx):
     if not ctx.thorough:
         units += [("hist", "str", "name", METHOD, 3, "fresh", p) for p in ("cell", "view", "replace", "cell2", "view2")]
     units += [("reduce", a, ctx.pick(4, 5)) for a in ("int", "float", "neg")] + [("reduce", a, 4) for a in ("big", "bigf")]
-    units += [("gextra", f) for f in ("grid", "floats", "patterns", "applies", "tuplekeys", "calls")]
+    units += [("gextra", f) for f in ("grid", "floats", "patterns", "applies", "tuplekeys", "calls", "stateful", "numerics")]
     agg = hashseeds.run(ctx, "props.c12", units)
     agg.notes["bound"] = "rows<=4 (1 key) / <=3 (2 keys) quick; <=5 / <=4 / <=2 (3 keys) thorough"
     agg.notes["exhaustive"] = True
@@ -293,7 +293,8 @@ def replay(rec):
     agg = Agg()
     _fam = {"grid of composite keys": "grid", "float accumulation": "floats", "every two-group arrangement": "patterns",
             "several custom functions on one column": "applies", "one-shot iterable arguments": "applies",
-            "tuple-valued keys": "tuplekeys", "two calls on the same table": "calls"}
+            "tuple-valued keys": "tuplekeys", "two calls on the same table": "calls",
+            "custom functions that raise or count their calls": "stateful", "Fraction / Decimal / complex values": "numerics"}
     if case.get("family") in _fam:
         from mc import groupextra
         fam = _fam[case["family"]]
